@@ -111,3 +111,13 @@ claim("C23", "model_checking", "TLA+ state machine of file sets (TLC, every tran
       "must be the newline-counting position of the call.",
       "Trusted: TLC, the replayer. Not modelled: //line directives, MergeLine, the end offset of a content ending in a newline, empty contents.",
       "DESIGN.md section 4 C23")
+
+claim("C26", "model_checking", "TLA+ spec of writer/chunked channel/reader (TLC invariant over every case) + replay of every case on the real reader with the same chunking; identity replay of all registered message kinds",
+      "DapFrame.tla models the Content-Length writer, a channel that cuts the byte stream at every set of up to 2 positions, and readContentLengthHeader/ReadBaseMessage "
+      "transcribed; TLC checks decoded = sent for every case (bodies over {x, CR, LF, C} incl. bodies that contain delimiter fragments; 1-3 messages) and every case is "
+      "executed on the real WriteBaseMessage/ReadBaseMessage through a transport that serves exactly those chunks. Codec: the harness enumerates the codec's constructor "
+      "tables (105 kinds), fills each message by reflection with three deterministic patterns and requires WriteProtocolMessage -> chunked stream -> ReadProtocolMessage to "
+      "return an equal message, for 40 chunkings per pattern.",
+      "Trusted: TLC, the chunking transport, reflection-based fill. Framing/order/dispatch are decided by the spec; field fidelity is an identity check on the fill patterns "
+      "(level: exploration for that part). Malformed headers are not driven.",
+      "DESIGN.md section 4 C26")
